@@ -18,6 +18,7 @@ from ural.utils import (
     urlsplit,
     urlunsplit,
     safe_urlsplit,
+    SLASH_SQUEEZE_RE,
 )
 
 NUMERIC_ID_RE = re.compile(r"[0-9]{8,}")
@@ -326,6 +327,10 @@ def parse_facebook_url(url, allow_relative_urls=False):
         splitted = safe_urlsplit(url)
     except ValueError:
         return None
+
+    # NOTE: repeated slashes are collapsed, as facebook itself does: an empty
+    # path segment is neither an id nor a handle
+    splitted = splitted._replace(path=SLASH_SQUEEZE_RE.sub("/", splitted.path))
 
     if not splitted.path or splitted.path == "/":
         return None
